@@ -24,7 +24,7 @@ import (
 
 const (
 	langMaxWitness = 12
-	langMaxLen     = 80
+	langMaxLen     = 100
 	langMaxInputs  = 400
 )
 
@@ -342,6 +342,18 @@ func limFamily() []Pat {
 		add(`(?:ab){0,%d}c`, n)
 		add(`(?:(?:ab){%d}c){2}d`, n)
 	}
+	// A2. counted loops around maxLoopExpansion (20), maxFixedResults (50) and MultiVsRepeaterLimit (64)
+	for _, n := range []int{19, 20, 21, 22, 25, 32, 49, 50, 51, 63, 64, 65} {
+		for _, f := range []string{`[ab]{%d}c`, `a{%d}b`, `[xy]a{%d}b`, `\d{%d}:`, `.{%d}c`, `[ab]{%d}cd`, `[ab]{%d}[cd]`, `a{%d}`, `(?:ab){%d}c`, `[ab]{%d,}c`, `x[ab]{%d}c`} {
+			if n > 32 && (f == `(?:ab){%d}c`) {
+				continue
+			}
+			add(f, n)
+		}
+	}
+	add(`[ab]{20}[cd]{20}[ef]{12}g`)
+	add(`[ab]{20}[cd]{20}[ef]{9}g`)
+	add(`[ab]{10}c[ab]{10}d[ab]{10}e[ab]{10}f[ab]{10}g`)
 	// B. long literals and shared prefixes, length 1..12
 	abc := "abcdefghijkl"
 	for k := 1; k <= 12; k++ {
